@@ -18,7 +18,7 @@ def dyadic(rng, lo=-64, hi=64, den_pow=3):
 
 def gen_case(rng, tier, profile=None):
     """a script: init + ops.  Times strictly increasing dyadics.  Profiles steer strata."""
-    profile = profile or rng.choice(["small-cap", "small-cap", "bounded", "true-cap", "scalar", "matrix", "f32"])
+    profile = profile or rng.choice(["small-cap", "small-cap", "bounded", "true-cap", "scalar", "matrix", "f32", "complex", "int64"])
     shape = rng.choice([(1,), (2,), (3,), (5,)])
     dtype = "float64"
     init_cap = None      # None -> class default
@@ -38,16 +38,26 @@ def gen_case(rng, tier, profile=None):
         shape = rng.choice([(2, 2), (2, 3), (1, 4)])
     elif profile == "f32":
         dtype = "float32"
+    elif profile in ("complex", "int64"):
+        dtype = "complex128" if profile == "complex" else "int64"
+        init_cap = rng.choice([1, 2, 3])
+        n_updates = rng.randint(init_cap, init_cap * 5 + 3)
     size = int(np.prod(shape)) if shape else 1
+    if dtype == "complex128":
+        size *= 2            # wire format: interleaved (re, im)
+    if dtype == "int64":
+        _dy = lambda: Fraction(rng.randint(-2 ** 40, 2 ** 40))
+    else:
+        _dy = lambda: dyadic(rng)
     t = dyadic(rng, -4, 4)
     t0 = t
-    y0 = [dyadic(rng) for _ in range(size)]
+    y0 = [_dy() for _ in range(size)]
     ops = []
     times = [t0]
     for k in range(n_updates):
         t = t + Fraction(rng.randint(1, 24), 8)
         times.append(t)
-        y = [dyadic(rng) for _ in range(size)]
+        y = [_dy() for _ in range(size)]
         ops.append(["u", q2s(t), [q2s(v) for v in y], rng.random() < 0.4])   # last: mutate caller's array afterwards
         # interleaved queries
         nq = 0 if n_updates > 100 and rng.random() < 0.9 else rng.choice([0, 0, 1, 2])
@@ -83,7 +93,19 @@ def run_impl(case):
         cls = type("H", (DDEHistory,), {"_INITIAL_CAPACITY": case["init_cap"]})
     shape = tuple(case["shape"])
     dt = np.dtype(case["dtype"])
-    mk = lambda vals: np.array([float(Fraction(v)) for v in vals], dtype=dt).reshape(shape)
+    def mk(vals):
+        if dt.kind == "c":
+            fl = [float(Fraction(v)) for v in vals]
+            return np.array([complex(a, b) for a, b in zip(fl[0::2], fl[1::2])], dtype=dt).reshape(shape)
+        if dt.kind == "i":
+            return np.array([int(Fraction(v)) for v in vals], dtype=dt).reshape(shape)
+        return np.array([float(Fraction(v)) for v in vals], dtype=dt).reshape(shape)
+
+    def flat(v):
+        v = np.asarray(v)
+        if v.dtype.kind == "c":
+            v = np.stack([v.real.reshape(-1), v.imag.reshape(-1)], axis=1).reshape(-1)
+        return [C.f2s(x) for x in np.asarray(v, dtype=np.float64).reshape(-1)]
     h = cls(mk(case["y0"]), float(Fraction(case["t0"])), case["max_steps"])
     out = []
     for op in case["ops"]:
@@ -97,19 +119,21 @@ def run_impl(case):
             except Exception as e:
                 out.append(f"raise:{type(e).__name__}")
             if op[3] and y.shape != ():
-                y += 1000.0          # caller re-uses its array
-            elif op[3]:
-                y = y + 1000.0
+                y += 1000            # caller re-uses its array
         elif op[0] == "q":
             try:
                 v = h(float(Fraction(op[1])))
-                v = np.array(v, dtype=np.float64).reshape(-1)
-                out.append([C.f2s((x)) for x in v])
+                if dt.kind == "c" and np.asarray(v).dtype.kind != "c":
+                    out.append("dtype-lost:" + str(np.asarray(v).dtype))
+                else:
+                    out.append(flat(v))
             except Exception as e:
                 out.append(f"raise:{type(e).__name__}")
         elif op[0] == "abs":
-            out.append([[C.f2s((h._t[i])), [C.f2s((x)) for x in np.array(h._y[i], dtype=np.float64).reshape(-1)]]
-                        for i in range(h._n)])
+            if h._y.dtype != dt:
+                out.append("dtype-changed:%s->%s" % (dt, h._y.dtype))
+            else:
+                out.append([[C.f2s((h._t[i])), flat(h._y[i])] for i in range(h._n)])
     return out, int(type(h)._INITIAL_CAPACITY), int(type(h)._GROW_FACTOR)
 
 
